@@ -52,6 +52,9 @@ def run(P, R, L):
     K.bundle_readpath(P, R, L)
     K.bundle_retention(P, R, L)
     K.bundle_liveness(P, R, L)
+    from . import blind
+    R.clause("GRD-38", "build_group_commit_batch fails only where its caller excluded it: a writer at the head of the queue always hands the queue on")
+    blind.grd38_group_builder_errors_are_unreachable(P, R, L)
     R.not_decided += ["linearizability itself (real-time order of responses)", "fairness of unlocked_fair",
                       "memory-model arguments for the unsafe blocks (UnsafeCell LogWriter, ArcSwap)"]
     R.assumptions += ["parking_lot::MutexGuard::unlocked_fair releases the mutex for exactly the duration of the closure",
